@@ -106,7 +106,7 @@ CHECKS = {
     category="proof",
     text="Proved in Coq for all finite rectangular tableaux, all pivots on a non-zero element and all real vectors: the equation system keeps exactly the same solutions, "
          "the objective row stays consistent, both lifted to every prefix of every pivot sequence; the ratio test keeps the basic solution non-negative; the objective never gets worse; "
-         "at stop no non-negative solution beats the basic one. Not proved: termination/anti-cycling, canonicity of basis columns, unbounded genuineness (checked on every implementation tableau). "
+         "at stop no non-negative solution beats the basic one; every column the direct start of into_tableau makes basic is a unit column with a positive entry (C14_direct_start_takes_unit_columns: the exact zero test of the F56 repair; with the tolerant test the statement is refuted by a witness). The solver's absolute 1e-5 tolerance inside the pivoting rules is kept visible as three refuted statements with witnesses evaluated in Coq (C14_tolerant_ratio_test_refuted, C14_tolerant_optimality_test_refuted, C14_two_phase_accepts_near_infeasible_refuted: findings F59, F59b, F57). Not proved: termination/anti-cycling, canonicity of basis columns, unbounded genuineness (checked on every implementation tableau). "
          "Tie: every observed pivot (entering, leaving, post-state) is replayed in the model from the implementation's own pre-state; start tableaux compared exactly.",
     design_ref="DESIGN.md section 4 / C14",
     technique="Coq proof of step invariants + induction over pivot sequences + per-step correspondence of histories + invariant/optimality/ray oracles on the implementation",
